@@ -180,6 +180,20 @@ Theorem C06_reorder_refuses_malformed : forall (shape no : list nat) (phi : list
   ~ Permutation no (seq 1 (length shape)) -> reorder_pops shape no phi = None.
 Proof. exact (@reorder_refuses R NumR). Qed.
 
+(** the validity test of reorder_pops is "neworder is a permutation of 1..d" *)
+Theorem C06_reorder_valid_iff_permutation : forall d no, valid_order d no <-> Permutation no (seq 1 d).
+Proof. exact valid_order_iff. Qed.
+
+(** reordering by n1 and then by n2 is reordering by  [n1[i-1] for i in n2] *)
+Theorem C06_reorder_compose : forall (shape n1 n2 : list nat) (phi : list R),
+  valid_order (length shape) n1 -> valid_order (length shape) n2 ->
+  match reorder_pops shape n1 phi with
+  | Some (s1, r1) => reorder_pops s1 n2 r1
+  | None => None
+  end = reorder_pops shape (compose_order n1 n2) phi.
+Proof. exact (@reorder_compose R NumR). Qed.
+Print Assumptions C06_reorder_compose.
+
 (** non-vacuity: a concrete non-uniform grid and a frequency strictly between two grid points *)
 Example C06_nonvacuous : trapz [0; 1 / 4; 1] (deposit_col [0; 1 / 4; 1] 3 (1 / 8)) = 3.
 Proof.
